@@ -18,7 +18,7 @@ import ast
 from .. import translate
 from ..translate import Untranslatable
 from .threshold import _expr, _str_const
-from .tradeoff import CMP, _body, _int, _name, _single_assigns
+from .tradeoff import CMP, _body, _int, _name, _single_assigns, only_statements
 
 OPF = "fairlearn/postprocessing/_threshold_operation.py"
 ITF = "fairlearn/postprocessing/_interpolated_thresholder.py"
@@ -58,6 +58,7 @@ def _operation(tree):
     if len(op_attr) != 1 or len(th_attr) != 1:
         raise U("ThresholdOperation.__init__ does not store operator / threshold once each")
     call = _method(tree, "ThresholdOperation", "__call__")
+    only_statements("ThresholdOperation.__call__", _body(call), If=2, Return=2, Raise=1)
     if [a.arg for a in call.args.args][0] != "self" or len(call.args.args) != 2:
         raise U("ThresholdOperation.__call__ signature changed")
     y = call.args.args[1].arg
@@ -100,6 +101,7 @@ def _operation(tree):
 def _pmf(tree):
     fn = _method(tree, "InterpolatedThresholder", "_pmf_predict")
     body = _body(fn)
+    only_statements("_pmf_predict", body, allowed_expr_calls=("check_is_fitted",), Assign=6, For=1, If=1, Return=1)
     kwonly = [a.arg for a in fn.args.kwonlyargs]
     if [a.arg for a in fn.args.args] != ["self", "X"] or kwonly != ["sensitive_features"]:
         raise U("_pmf_predict signature changed")
@@ -226,6 +228,7 @@ def _pmf(tree):
 def _predict(tree):
     fn = _method(tree, "InterpolatedThresholder", "predict")
     body = _body(fn)
+    only_statements("InterpolatedThresholder.predict", body, allowed_expr_calls=("check_is_fitted",), Assign=2, Return=1)
     assigns, _ = _single_assigns(body)
     rets = [s for s in body if isinstance(s, ast.Return)]
     if len(rets) != 1:
@@ -273,6 +276,7 @@ def _predict(tree):
 def _delegation(tree):
     for name in ("predict", "_pmf_predict"):
         fn = _method(tree, "ThresholdOptimizer", name)
+        only_statements("ThresholdOptimizer." + name, _body(fn), allowed_expr_calls=("check_is_fitted",), Return=1)
         rets = [s for s in _body(fn) if isinstance(s, ast.Return)]
         if len(rets) != 1:
             raise U(f"ThresholdOptimizer.{name}: not exactly one return")
@@ -300,8 +304,8 @@ def lift_thresholder(repo):
          "\nDo not edit: rewritten on every run from the tree under check.\n-/\nset_option linter.unusedVariables false\n",
          "namespace ThresholderSrc\n"]
     L.append("/-! ### `ThresholdOperation.__call__` (s = the score, t = a FINITE threshold) -/")
-    L.append(f"/-- operator \">\": `{ops['>'][1]}` -/\ndef opGt (s t : Rat) : Bool := {ops['>'][0]}")
-    L.append(f"/-- operator \"<\": `{ops['<'][1]}` -/\ndef opLt (s t : Rat) : Bool := {ops['<'][0]}\n")
+    L.append(f"/-- operator \">\" -/\ndef opGt (s t : Rat) : Bool := {ops['>'][0]}")
+    L.append(f"/-- operator \"<\" -/\ndef opLt (s t : Rat) : Bool := {ops['<'][0]}\n")
     L.append("/-! ### `InterpolatedThresholder._pmf_predict` (o0 / o1 = operation0 / operation1 applied to the score, as 0/1) -/")
     L.append(f"/-- start value of `positive_probs` (s = the score) -/\ndef initialProb (s : Rat) : Rat := {pm['init']}")
     L.append(f"def interp (p0 o0 p1 o1 : Rat) : Rat := {pm['interp']}")
